@@ -633,6 +633,10 @@ class Interp:
                 mod, cls = base.cls
                 fn = self.find_method(mod, cls, a)
                 if fn is not None:
+                    if _is_staticmethod(fn[2]):
+                        return Func(fn[0], fn[1], fn[2], self_val=None)
+                    if _is_classmethod(fn[2]):
+                        return Func(fn[0], fn[1], fn[2], self_val=ClsRef(f"{PKG}.{fn[0]}.{fn[1].split('.')[0]}"))
                     f = Func(fn[0], fn[1], fn[2], self_val=base)
                     if is_property(fn[2]):
                         return self.call_func(f, [], {}, site)
@@ -1607,6 +1611,10 @@ def _root_name(e: ast.AST) -> str | None:
     while isinstance(e, ast.Attribute):
         e = e.value
     return e.id if isinstance(e, ast.Name) else None
+
+
+def _is_staticmethod(fn) -> bool:
+    return any(isinstance(d, ast.Name) and d.id == "staticmethod" for d in fn.decorator_list)
 
 
 def _is_classmethod(fn) -> bool:
